@@ -352,3 +352,26 @@ PROPS["C12"] = dict(
     floors={"quick": {"honest_admissions": 1000, "adversarial_transcripts_refused": 8000, "inbound_Gossip_relayed-by-mitm": 300, "inbound_Consensus_replayed-from-other-session": 300, "outbound_Gossip_other-identity": 300, "pool_inserts_accepted": 20000, "pool_inserts_refused": 20000, "quota_leak_probes": 3000, "pool_concurrent_rounds": 30},
             "thorough": {"pool_inserts_accepted": 500000}},
 )
+
+PROPS["C10"] = dict(
+    title="No input from the network can crash a node",
+    level="exploration",
+    technique="runtime monitoring: panic / abort / allocation monitor (catch_unwind per case, subprocess per shard, counting global allocator) under a byte-level adversary at every protocol stage, plus well-signed absurd consensus messages into real replicas",
+    explanation="L0: every message decoder (22 public types and the 14 crate-private network messages through the verif facade) is fed random bytes, mutations of valid encodings (bit flips, "
+    "truncation, overlong varints, duplicated slices, splices) and structurally valid protobufs with extreme field values generated from the descriptors (0/1/MAX/MIN integers, "
+    "1_000_000_000 nanos, byte strings of every interesting length, missing/repeated fields), in the production-like and the overflow-checked flavour. L1: length-prefixed frames with "
+    "announced lengths 0/max/max+1/u32::MAX and short bodies. L2: garbage noise handshake messages in both roles. L4: after a valid mux handshake every one of the 65536 frame headers in "
+    "2-4 connection states. L6: Byzantine validators send well-signed absurd consensus messages (view/block numbers at u64::MAX, bitmaps of wrong length, empty certificates) into real "
+    "replicas of the simulator. Oracle: no panic, no abort, the entry point returns, peak allocation stays within 64 x input + 1 MB; a replica that stops on its own is a violation.",
+    assumptions=["held on the generated inputs only (decoder stage: thousands of inputs per type; mux header stage: exhaustive per connection state)", "the L3 preface and L5 RPC stages share their framing with L1/L4 and are exercised by the C12/C15 workloads"],
+    stages=[
+        dict(name="decoders", flavour="release", args={"mode": "decoders"}, abort_is_violation=True, **NET),
+        dict(name="decoders-checked", flavour="checked", args={"mode": "decoders"}, abort_is_violation=True, **NET),
+        dict(name="frames", flavour="release", args={"mode": "frames"}, shards=4, abort_is_violation=True, **NET),
+        dict(name="mux-headers", flavour="release", args={"mode": "mux-headers"}, abort_is_violation=True, **NET),
+        dict(name="absurd-messages", flavour="release", abort_is_violation=True, **SIM),
+        dict(name="absurd-messages-checked", flavour="checked", abort_is_violation=True, **SIM),
+    ],
+    floors={"quick": {"decode_inputs_structured-extremes": 100000, "decode_inputs_mutated-valid": 100000, "decoder_kinds": 36, "mux_headers_probed": 131072, "frame_inputs": 1000, "byz_byz-absurd": 300},
+            "thorough": {"mux_headers_probed": 262144}},
+)
